@@ -36,7 +36,7 @@ type Case struct {
 func gen(c *run.Ctx, cs Case) *pipe.Workload {
 	r := run.NewRand(cs.Seed, "C01", cs.Kind, cs.Index)
 	thorough := cs.Tier == "thorough"
-	o := pipe.GenOpts{MaxInputs: 12, MaxLines: 3000, LongLines: true}
+	o := pipe.GenOpts{MaxInputs: 12, MaxLines: 3000, LongLines: true, Gunzip: true}
 	if thorough {
 		o.MaxInputs = 40
 	}
@@ -196,6 +196,18 @@ func one(c *run.Ctx, cs Case) bool {
 	c.Count("lines_judged", int64(len(truth)))
 	c.Count("matches_judged", int64(len(obs.Matches)))
 	c.Count("timer_flushes", int64(obs.TimerFlushes))
+	if w.Cfg.Gunzip {
+		c.Count("gunzip_runs", 1)
+		for _, in := range w.Inputs {
+			if in.Gz {
+				c.Count("gunzip_inputs_compressed", 1)
+			} else if n := len(in.Data); n >= 1 && n <= 9 {
+				c.Count("gunzip_plain_inputs_shorter_than_a_gzip_header", 1)
+			} else {
+				c.Count("gunzip_inputs_plain", 1)
+			}
+		}
+	}
 	if obs.WorkersUsed >= 2 {
 		c.Count("runs_with_2plus_workers_active", 1)
 	}
@@ -239,6 +251,10 @@ func cli(c *run.Ctx, cs Case, w *pipe.Workload, truth []pipe.LineTruth) {
 	var paths []string
 	if !stdin {
 		args = append(args, "--readers", strconv.Itoa(w.Cfg.Readers))
+		if w.Cfg.Gunzip {
+			args = append(args, "-z")
+			c.Count("cli_gunzip_runs", 1)
+		}
 		ps, err := pipe.Materialise(w, dir)
 		if err != nil {
 			c.Inconclusive("materialise: " + err.Error())
